@@ -684,8 +684,14 @@ func enumTypes(withBot bool) []*model.Type {
 	return out
 }
 
+// the checker-level face of "the empty-container element type unifies only where the rules allow
+// it": programs in which an expression of that type (an empty literal, [][0], [:][k]) stands where
+// another type is required - operands, keys, elements, arguments of named and of function-VALUE
+// callees; yae's checker must decide as the typing rules do (C05's oracle)
+var c17bot = Register(&Prop[TypingCase]{ID: "C17", Name: "empty-container-rules-in-the-checker", Gen: genBottomTypingCase, Check: checkC05})
+
 func TestC17(t *testing.T) {
-	R.Rule = "pairs (x,y[,z]) of types over num/str/bool/time, variables a,b,c (repeated), list, map, object (permuted field orders), optional, function, argument tuple outermost; built both with fresh nodes and with shared sub-terms, parameter / tuple element lists also carved consecutively from one backing array (spare capacity = the next list), the types read back unchanged after Equals and Equals asked twice; exhaustive over all types of depth<=2/width<=2 over {num,str,'a,'b}; systems of 2-5 equations over one variable pool (chains, aliases, cycles closed through k bindings, either side, every meeting order), exhaustively for 3 variables with right sides among {a,b,c,list[a],list[b],list[c],num,{p:a,q:num},{p:b,q:num},{p:c,q:num}}; non-trivial = repeated variable inside a container, or model-equal types with different field order, or an occurs-check pair, or shared sub-terms of depth>1"
+	R.Rule = "pairs (x,y[,z]) of types over num/str/bool/time, variables a,b,c (repeated), list, map, object (permuted field orders), optional, function, argument tuple outermost; built both with fresh nodes and with shared sub-terms, parameter / tuple element lists also carved consecutively from one backing array (spare capacity = the next list), the types read back unchanged after Equals and Equals asked twice; exhaustive over all types of depth<=2/width<=2 over {num,str,'a,'b}; systems of 2-5 equations over one variable pool (chains, aliases, cycles closed through k bindings, either side, every meeting order), exhaustively for 3 variables with right sides among {a,b,c,list[a],list[b],list[c],num,{p:a,q:num},{p:b,q:num},{p:c,q:num}}; plus generated programs mutated so that an expression of the empty-container element type stands where another type is required (operands, keys, elements, arguments of named callees and of function values), decided by yae's checker as by the reference typing rules; non-trivial = repeated variable inside a container, or model-equal types with different field order, or an occurs-check pair, or shared sub-terms of depth>1"
 	R.Assume = []string{"model.Equal / refMatch (harness) define structural identity and instantiation", "⊥ only generated as container element; ⊤ not generated"}
 	reportKnown(t, "C17")
 	runRegress(t, "C17")
@@ -757,4 +763,5 @@ func TestC17(t *testing.T) {
 		})
 	}
 	c17.Run(t, budget(40000, 1600000))
+	c17bot.Run(t, budget(3000, 150000))
 }
